@@ -1,7 +1,9 @@
 #!/bin/sh
 # usage: try_patch.sh <patch.diff> <Cnn> [--tier t]   -- apply a change to /repo, run one property's check with evidence redirected, undo the change
+# (and rebuild the prqlc binary from the restored tree, so that later manual probes do not run the changed compiler)
 P=$1; C=$2; shift 2
 git -C /repo apply "$P" || exit 3
 VERIF_EVIDENCE_DIR=/tmp/verif_try_evidence /verif/check "$C" "$@" 2>&1 | grep "VIOLATION\|failed obligation\|^OK\|UNDECIDED\|KNOWN" | cut -c1-220
 git -C /repo checkout -- .
 rm -rf /tmp/verif_try_evidence
+(cd /repo && CARGO_NET_OFFLINE=true cargo build -q -p prqlc --bin prqlc --offline >/dev/null 2>&1)
